@@ -303,10 +303,25 @@ theorem isSuffixOf_false_of_not_mem (c : Char) (suf s : List Char) (hc : c ∈ s
 
 /-! ### `int()` -/
 
+theorem asciiDigit_ascii (c : Char) (h : c.toNat < 128) : asciiDigit c = c := by
+  simp [asciiDigit, h]
+
+theorem map_asciiDigit_id (s : List Char) (h : ∀ c ∈ s, c.toNat < 128) : s.map asciiDigit = s := by
+  induction s with
+  | nil => rfl
+  | cons a r ih =>
+    simp only [List.map_cons, asciiDigit_ascii a (h a (by simp)), ih (fun c hc => h c (by simp [hc]))]
+
+theorem ascii_of_isDigit (c : Char) (h : c.isDigit = true) : c.toNat < 128 := by
+  simp only [Char.isDigit, Bool.and_eq_true, decide_eq_true_eq] at h
+  have h2 : c.toNat ≤ 57 := UInt32.le_iff_toNat_le.mp h.2
+  omega
+
 theorem intOfStr_digits (s : List Char) (hs : ∀ c ∈ s, c.isDigit = true) :
     intOfStr s = (String.ofList s).toNat?.map (fun n => (n : Int)) := by
   unfold intOfStr
-  rw [strip_id s (fun c hc => isSpace_of_isDigit c (hs c hc))]
+  rw [strip_id s (fun c hc => isSpace_of_isDigit c (hs c hc)),
+    map_asciiDigit_id s (fun c hc => ascii_of_isDigit c (hs c hc))]
   cases s with
   | nil =>
     simp only [toNat?_nil]; rfl
